@@ -377,6 +377,91 @@ def rewrite_method_to_fn(text, method, fn, cnt):
     return toks_text(out)
 
 
+def _recv_start(out, p):
+    """index in `out` (token list) where the receiver (postfix chain) that ends at out[p] starts"""
+    q = p
+    while q >= 0:
+        tq = out[q]
+        if tq.kind in ("id", "num", "str") or (tq.kind == "p" and tq.text in ".:"):
+            q -= 1; continue
+        if tq.kind == "p" and tq.text in ")]":
+            depth = 0
+            while q >= 0:
+                if out[q].kind == "p" and out[q].text in ")]": depth += 1
+                elif out[q].kind == "p" and out[q].text in "([":
+                    depth -= 1
+                    if depth == 0: break
+                q -= 1
+            q -= 1; continue
+        if tq.kind in ("ws", "lcom", "bcom"):
+            f = q + 1
+            while f <= p and out[f].kind not in CODE: f += 1
+            if f <= p and out[f].text == ".":
+                q -= 1; continue
+        break
+    rs = q + 1
+    while rs <= p and out[rs].kind not in CODE: rs += 1
+    return rs
+
+
+def rewrite_method_chain(text, methods, fn, cnt, where):
+    """R11: `<recv>.m1(a1).m2(a2)...mN(aN)` (an iterator pipeline; a turbofish after a method name is dropped) -> `fn(<recv>, a1, a2, ..)`.
+    The closure literals handed to the adapters stay verbatim; the adapters themselves are what the trusted shim `fn` stands for."""
+    toks = lex(text)
+    out, k, n = [], 0, len(toks)
+    hits = 0
+
+    def nxt(j):
+        while j < n and toks[j].kind not in CODE: j += 1
+        return j
+    while k < n:
+        t = toks[k]
+        if t.kind == "p" and t.text == ".":
+            j = k
+            args = []
+            ok = True
+            for mth in methods:
+                j = nxt(j)
+                if j >= n or toks[j].text != ".": ok = False; break
+                j = nxt(j + 1)
+                if j >= n or toks[j].text != mth: ok = False; break
+                j = nxt(j + 1)
+                if j < n and toks[j].text == ":":     # turbofish  ::<...>
+                    j = nxt(j + 1)
+                    if j >= n or toks[j].text != ":": ok = False; break
+                    j = nxt(j + 1)
+                    if j >= n or toks[j].text != "<": ok = False; break
+                    depth = 0
+                    while j < n:
+                        if toks[j].text == "<": depth += 1
+                        elif toks[j].text == ">":
+                            depth -= 1
+                            if depth == 0: break
+                        j += 1
+                    j = nxt(j + 1)
+                if j >= n or toks[j].text != "(": ok = False; break
+                close = match_close(toks, j)
+                a = toks_text(toks[j + 1:close]).strip()
+                if a: args.append(a)
+                j = close + 1
+            if ok:
+                p = len(out) - 1
+                while p >= 0 and out[p].kind not in CODE: p -= 1
+                rs = _recv_start(out, p)
+                recv = toks_text(out[rs:p + 1])
+                del out[rs:]
+                out.append(Tok("p", "%s(&%s%s)" % (fn, recv, "".join(", " + a for a in args)), 0, 0))   # `.iter()` borrows its receiver
+                hits += 1
+                k = j
+                continue
+        out.append(t)
+        k += 1
+    if not hits:
+        raise AnchorLost("%s: chain `.%s()` found no site" % (where, "().".join(methods)))
+    cnt.add("R11.chain `.%s(..)` => `%s(..)`" % ("(..).".join(methods), fn), hits)
+    return toks_text(out)
+
+
 def replace_all_calls(text, head, repl, cnt):
     """R6: every `<head>(...)` / `<head>!(...)` call is replaced by `repl` (arguments dropped)"""
     while True:
@@ -928,6 +1013,7 @@ class Unit:
         mutself = "mutself" in opts
         # split block into spec lines and body directives
         spec, edits, rewrites = [], [], list(self.unit_rewrites)
+        chains = []
         k = 0
         while k < len(block):
             lno, ln = block[k]
@@ -944,6 +1030,23 @@ class Unit:
                 if not m:
                     raise AnchorLost("%s:%d: bad //@replace-call" % (self.vc_path, lno))
                 edits.append(("call", m.group(1), (int(m.group(2)), m.group(3)), lno)); k += 1
+                continue
+            if ln.startswith("//@chain"):
+                m = re.match(r"//@chain\s+`(.*?)`\s*=>\s*`(.*?)`\s*$", ln)
+                if not m:
+                    raise AnchorLost("%s:%d: bad //@chain" % (self.vc_path, lno))
+                chains.append((m.group(1).split(), m.group(2))); k += 1
+                continue
+            if ln.startswith("//@closure"):
+                # R11: a closure literal `|pat| body` gets a typed head and a contract: `|x: T| -> (r: R) <requires/ensures lines> { <bind> body }`
+                m = re.match(r"//@closure\s+`(.*?)`\s*=>\s*`(.*?)`(?:\s+bind\s+`(.*?)`)?(?:\s+as\s+`(.*?)`)?\s*$", ln)
+                if not m:
+                    raise AnchorLost("%s:%d: bad //@closure" % (self.vc_path, lno))
+                cbody = []
+                k += 1
+                while k < len(block) and not block[k][1].startswith("//@"):
+                    cbody.append(block[k]); k += 1
+                edits.append(("closure", m.group(1), (m.group(2), m.group(3) or "", cbody, m.group(4)), lno))
                 continue
             if ln.startswith("//@insert"):
                 optional = ln.startswith("//@insert?")
@@ -1036,7 +1139,15 @@ class Unit:
                 new_body = replace_all_calls(new_body, hd, rp, self.counts)
             for (mth, fnn) in self.unit_method_shims:
                 new_body = rewrite_method_to_fn(new_body, mth, fnn, self.counts)
-            for (mode, anchor, ins, lno) in sorted(edits, key=lambda e: 0 if e[0] == "tail" else 1):
+            chains_done = False
+            for (mode, anchor, ins, lno) in sorted(edits, key=lambda e: 0 if e[0] == "tail" else (1 if e[0] == "closure" else 2)) + [("chains-flush", None, None, 0)]:
+                if mode != "tail" and mode != "closure" and not chains_done:
+                    # R11 pipelines are rewritten once the closures have their typed heads, before ghost code is anchored to the resulting statements
+                    for (mths, fnn) in chains:
+                        new_body = rewrite_method_chain(new_body, mths, fnn, self.counts, path)
+                    chains_done = True
+                if mode == "chains-flush":
+                    continue
                 if mode == "tail":
                     # R9: `{ stmts; tail }` -> `{ stmts; let r__ = tail; <ghost> r__ }` (same evaluation order)
                     a, e = _tail_span(new_body, path)
@@ -1085,6 +1196,51 @@ class Unit:
                         self.counts.add("ghost-insertions-skipped(anchor absent)")
                         continue
                 a, b = find_anchor(new_body, anchor, "%s (%s:%d)" % (path, os.path.basename(self.vc_path), lno))
+                if mode == "closure":
+                    typed, bind, clines, asname = ins
+                    btoks = [t for t in lex(new_body) if t.kind in CODE and t.start >= b]
+                    if not btoks:
+                        raise AnchorLost("%s: closure `%s` has no body" % (path, anchor))
+                    if btoks[0].text == "{":
+                        allt = lex(new_body)
+                        qi = next(idx for idx, t in enumerate(allt) if t.start == btoks[0].start)
+                        e = allt[match_close(allt, qi)].end
+                    else:
+                        depth, e = 0, None
+                        for t in btoks:
+                            if t.kind == "p" and t.text in "([{": depth += 1
+                            elif t.kind == "p" and t.text in ")]}":
+                                if depth == 0: e = t.start; break
+                                depth -= 1
+                            elif t.kind == "p" and t.text == "," and depth == 0:
+                                e = t.start; break
+                        if e is None:
+                            raise AnchorLost("%s: closure `%s`: end of body not found" % (path, anchor))
+                    cb = new_body[btoks[0].start:e].rstrip()
+                    text = "\n".join(x[1] for x in clines)
+                    ctext = typed + "\n/*@ghost-begin %d*/\n%s\n/*@ghost-end*/\n{ %s %s }" % (lno, text, bind, cb)
+                    if asname:
+                        # the closure literal is bound to a local right before the top-level statement of the function body that contains it (creating a
+                        # closure has no effect; what it captures is borrowed, so it cannot change in between) - ghost code can then name it
+                        btk = [t for t in lex(new_body) if t.kind in CODE]
+                        pos, s0 = btk[1].start, None
+                        inner_end = btk[-1].start
+                        while pos < inner_end:
+                            se = _stmts_end(new_body[:inner_end], pos, 1)
+                            if pos <= a < se:
+                                s0 = pos; break
+                            nx = [t for t in btk if t.start >= se and t.start < inner_end]
+                            if not nx: break
+                            pos = nx[0].start
+                        if s0 is None:
+                            raise AnchorLost("%s: closure `%s`: enclosing statement not found" % (path, anchor))
+                        new_body = new_body[:s0] + "let %s = %s;\n" % (asname, ctext) + new_body[s0:a] + asname + new_body[e:]
+                        self.counts.add("R11.closure-bound-to-local `%s`" % asname)
+                    else:
+                        new_body = new_body[:a] + ctext + new_body[e:]
+                    self.counts.add("R11.closure-head-typed `%s` => `%s`" % (anchor, typed))
+                    self.counts.add("ghost-insertions")
+                    continue
                 if mode == "replace":
                     nst, repl = ins
                     e = _stmts_end(new_body, a, nst)
